@@ -246,8 +246,9 @@ CHECKS["C01"] = {
              "family over x,y,b1 for the flat boolean domains; x 2 (3) initial values x 8 (20) domains x 3 (7) fixpoint parameter tuples "
              "(widening delay, descending iterations, thresholds, liveness pruning). For every block, every concrete state arriving at / leaving "
              "it must satisfy M1-M4 of get_pre / get_post. distinct_nontrivial = distinct printed invariants of the last block. "
-             "Job 3: n<=2 blocks with the 29-statement alphabet (adds *2, -1, disequalities, equalities, /2, %2, &1, >>1, x*y, both select forms, "
-             "negation, unreachable, ...) and every two-statement block."),
+             "Job 3: n<=2 blocks with the 33-statement alphabet (adds *2, -1, disequalities, equalities, /2, %2, &1, >>1, x*y, both select forms, "
+             "negation, unreachable, udiv, urem, or, shl, in-place operations by constants incl. x*0, ...) and every two-statement block (quick: default "
+             "fixpoint parameters only)."),
     "assumptions": _E2_ASSUME,
     "level_text": "Complete enumeration of the stated program space; each program's concrete state space is explored exhaustively within the horizon and every analysis runs on the real analyzer.",
     "level_note": "Programs with more than 3 blocks / 1-2 statements per block, other statement kinds and values outside the box are not covered.",
@@ -265,7 +266,7 @@ CHECKS["C02"] = {
              "bool_assert in the boolean family), each occurrence with its own debug id. For every domain / fixpoint parameter tuple: "
              "intra_fwd_analyzer + intra_checker(assert_property_checker), and intra_forward_backward_analyzer with enable_backward x "
              "max_refine_iterations {0,1,5} x use_refined_invariants + intra_checker. SAFE => no explored execution reaches the assertion with a "
-             "false condition; UNREACHABLE => no explored execution reaches it. Warnings are never judged. Job 3: n<=2 blocks with the 29-statement alphabet (division, remainder, bitwise, "
+             "false condition; UNREACHABLE => no explored execution reaches it. Warnings are never judged. Job 3: n<=2 blocks with the 33-statement alphabet (division, remainder, bitwise, "
              "multiplication, both select forms, unreachable, ...) and every two-statement block (statement; assertion). Job 4: the C09 call-graph space with an "
              "assertion in main and one in the callee f (checked once per calling context: a location counts as SAFE / UNREACHABLE only if no recorded "
              "verdict is a warning or error): verdicts of the checker interleaved with the top-down inter-procedural analysis (every parameter tuple) and of "
@@ -286,7 +287,7 @@ CHECKS["C05"] = {
     "rule": ("the C01 program space restricted to programs with a cycle, every domain / fixpoint parameter tuple: the forward analysis must finish "
              "within 20000 fixpoint iterations (ascending + descending, counted by the tick hook placed in the wto cycle loops, the kill/gen "
              "iterator, the forward-backward refinement loop and the inter-procedural recursion). max.max_fixpoint_ticks reports the maximum observed. "
-             "Job 2: n<=2 blocks, 29-statement alphabet, two-statement blocks. Job 3: every top-down and bottom-up inter-procedural analysis of the C09 call-graph space (recursive functions, precise recursion "
+             "Job 2: n<=2 blocks, 33-statement alphabet, two-statement blocks. Job 3: every top-down and bottom-up inter-procedural analysis of the C09 call-graph space (recursive functions, precise recursion "
              "fixpoints) under a budget of 3000 iterations (the maximum observed on the unchanged tree is below 100). "
              "Job 4 (widening chains): per domain/config, for ALL ordered pairs (A,B) of the C04 pool of reachable values: acc:=A; repeat { nw:=acc|B; "
              "stop if nw<=acc; acc:=acc||nw } with the plain widening and with widening_thresholds must stop within 40 steps by the domain's own "
@@ -343,7 +344,7 @@ CHECKS["C11"] = {
     "jobs": [{"bin": "e2_prog", "args": ["--family", "num", "--alpha", "0"], "deadline": {"quick": 300, "thorough": 900}},
              {"bin": "e2_prog", "args": ["--family", "num", "--alpha", "2", "--maxn", "2", "--second", "1"], "deadline": {"quick": 300, "thorough": 900}}],
     "rule": ("job 1: the C01 program space (n<=3 blocks, 9-statement core alphabet + 3 assertions, all edge sets with an exit block); job 2: n<=2 "
-             "with the 29-statement alphabet (adds *2, -1, disequalities, equalities, y:=1, y:=0, /2, %2, &1, >>1, x*y, select, negation, "
+             "with the 33-statement alphabet (adds *2, -1, disequalities, equalities, y:=1, y:=0, /2, %2, &1, >>1, x*y, select, negation, "
              "unreachable) and every two-statement block. For each program the concrete graph over the value box is built from every (block, "
              "state) root and the sets 'can go on to violate an assertion' / 'can reach the exit in a final state satisfying F' (F in {true, x<=0, "
              "x>=1}) are computed by backward propagation to a fixpoint. The real backward analysis (error mode: assertions as sources; good "
